@@ -285,7 +285,11 @@ func genFuShapes(r *Rand, tier string, emit func(string)) {
 	}
 	// tag combinations on a few field types
 	for _, ft := range [][3]string{{"int", "0", "5"}, {"string", "s:", "s:61"}, {"[]int", "nil", "[1]"}, {"*int", "nil", "&0"}, {"any", "nil", "<string>s:"},
-		{"@Inner", "(0,s:)", "(1,s:61)"}, {"map[string]int", "{}", "{s:61=1}"}, {"@ZV", "(0)", "(1)"}, {"*@Inner", "nil", "&(1,s:61)"}, {"@ZStr", "s:7a65726f", "s:"}} {
+		{"@Inner", "(0,s:)", "(1,s:61)"}, {"map[string]int", "{}", "{s:61=1}"}, {"@ZV", "(0)", "(1)"}, {"*@Inner", "nil", "&(1,s:61)"}, {"@ZStr", "s:7a65726f", "s:"},
+		// every kind of IsZeroer: value / pointer receiver, struct / scalar / slice / map / array kinds, behind pointers, embedded
+		{"@ZP", "(0)", "(1)"}, {"*@ZP", "nil", "&(0)"}, {"*@ZV", "nil", "&(0)"}, {"@ZInt", "0", "1"}, {"@TimeLike", "(0,0)", "(1,2)"},
+		{"@EmbZ", "((0),1)", "((1),1)"}, {"@ZInts", "nil", "[1,0]"}, {"@ZInts", "[0,1]", "[]"}, {"@ZArr", "[0,0]", "[0,1]"},
+		{"@ZMapP", "nil", "{s:6b=1}"}, {"bool", "false", "true"}, {"float64", "f:0000000000000000", "f:3ff0000000000000"}, {"[2]int", "[0,0]", "[0,1]"}} {
 		for _, tag := range allTags() {
 			t := "struct{A:int;" + tagged("F", ft[0], tag) + ";Z:string}"
 			fuAll(emit, t, "(1,"+ft[1]+",s:7a)")
